@@ -33,6 +33,8 @@ pub mod show_config;
 pub mod signal;
 pub mod target_runner;
 mod test_command;
+#[cfg(nextest_verif)]
+pub use test_command::verif_imp;
 pub mod test_filter;
 pub mod test_output;
 mod time;
